@@ -315,6 +315,17 @@ pub fn seeds(u: &Universe, thorough: bool, only_small: bool, skips: &[crate::con
     if only_small {
         return v;
     }
+    // sparse tables: many buckets, very few entries left (a mass eviction by a lowered limit)
+    for (hk, n) in [(HK::Spread, 60usize), (HK::Sip, 120), (HK::Const, 60), (HK::Spread, 600)] {
+        let cfg = Config { hk, cap: None, limit: usize::MAX };
+        let (mut ops, _) = script(n, 0..0, 0);
+        ops.push(Op::SetMaxRaw { v: 4 * u.e + 8 });
+        ops.push(Op::SetMaxRaw { v: usize::MAX });
+        let removed: Vec<u32> = (0..3).map(|i| F0 as u32 + i).collect();
+        crate::contain::set_phase(10 + v.len() as u64);
+        let sk = skip_for(v.len());
+        v.push(finish_seed(u, cfg, ops, removed, d.min(2), "sparse (many buckets, few entries)", sk));
+    }
     // larger caches
     let mut big: Vec<(HK, usize, usize)> = vec![(HK::Spread, 64, d), (HK::Const, 64, d.min(3)), (HK::Sip, 1000, if thorough { 3 } else { 2 })];
     if thorough {
